@@ -257,6 +257,9 @@ class MoleculeResolver:
 
             for node in fragment.nodes:
                 new_node = correspondence[node]
+                # the fragment id is the key of the node in the lower
+                # resolution graph and not the number of fragments added
+                self.molecule.nodes[new_node]['fragid'] = [meta_node]
                 attrs = copy.deepcopy(self.molecule.nodes[new_node])
                 graph_frag.add_node(correspondence[node], **attrs)
                 nx.set_node_attributes(graph_frag, [meta_node], 'fragid')
